@@ -50,6 +50,8 @@ type apiEnv struct {
 	tables     map[string]bool // on the leader
 	r          *rand.Rand
 	big        int
+	// forceName: the next table request is a creation of exactly this name on the leader
+	forceName []byte
 }
 
 // bumpLastCount: the tokens written so far end with "<n> <ops of n operations>"; n was `old`.
@@ -443,6 +445,9 @@ func (e *apiEnv) genTables() {
 	if e.r.Intn(3) == 0 {
 		name = []byte(fmt.Sprintf("t%d", 1+e.r.Intn(4)))
 	}
+	if e.forceName != nil {
+		name, s = e.forceName, "L"
+	}
 	before := e.digest()
 	// the request is sent as raw bytes: the typed client refuses to marshal a string that is not UTF-8
 	var b []byte
@@ -451,7 +456,7 @@ func (e *apiEnv) genTables() {
 		b = appendVarint(b, uint64(len(name)))
 		b = append(b, name...)
 	}
-	create := e.r.Intn(3) > 0
+	create := e.r.Intn(3) > 0 || e.forceName != nil
 	method, what := regattapb.Tables_Create_FullMethodName, "tcreate"
 	if !create {
 		method, what = regattapb.Tables_Delete_FullMethodName, "tdelete"
@@ -566,6 +571,12 @@ func hAPI(dir string) {
 		}
 		out.Line("follower-sync", ans)
 	}
+	// the name limit is in bytes: creations just beyond it - in one-byte and in two-byte characters - in every run
+	for _, nm := range [][]byte{bytes.Repeat([]byte("n"), 201), bytes.Repeat([]byte("\xc3\xa9"), 101), bytes.Repeat([]byte("\xc3\xa9"), 150)} {
+		e.forceName = nm
+		e.genTables()
+	}
+	e.forceName = nil
 	// some content
 	for i := 0; i < 6; i++ {
 		ctx, cancel := ctxT()
